@@ -265,7 +265,8 @@ def compile_batches(chk, r, items, outcomes, tier):
             # code the derive produced (its tokens carry the span of the `#[derive]` line, not an expansion record)
             key = f"C16|expansion-does-not-compile|{re.sub(r'`[^`]*`', '`_`', e['message'])[:80]}"
             chk.violation(key, f"accepted item expands to code rustc rejects: `{src[:300]}`: {e['message'][:300]}",
-                          {"source": src, "error": e["rendered"]}, tags=["expansion-does-not-compile"])
+                          {"source": src, "error": e["rendered"]},
+                          tags=["expansion-does-not-compile"] + (["serde-bound-on-ts-impl"] if any(k == "!serde-bound" for _sp, k, _t in it.cattrs) else []))
         # rewrite crates without the offending items and retry
         for nme in names:
             k = int(nme[len("c16_a"):])
